@@ -28,7 +28,11 @@ def typeToks : PVarType → List Tok
   | .real none none => [.word "Real"]
   | .real (some a) (some b) => .word "Real" :: .lpar :: (fmtToks a ++ .comma :: (fmtToks b ++ [.rpar]))
   | .intRange a b => .word "IntegerRange" :: .lpar :: (fmtToks a ++ .comma :: (fmtToks b ++ [.rpar]))
-  | _ => []        -- one-sided bounds are printed with a default (`0`, `Infinity`, `MinusInfinity`): outside the fragment
+  -- one-sided bounds are printed with a default (`0`, `Infinity`, `MinusInfinity`): the tokens of `ty.canon`
+  | .nonNegReal lo hi => .word "NonNegativeReal" :: .lpar ::
+      (fmtToks (lo.getD (.int 0)) ++ .comma :: (fmtToks (hi.getD (.var "Infinity")) ++ [.rpar]))
+  | .real lo hi => .word "Real" :: .lpar ::
+      (fmtToks (lo.getD (.var "MinusInfinity")) ++ .comma :: (fmtToks (hi.getD (.var "Infinity")) ++ [.rpar]))
 
 def varListToks : List CName → List Tok
   | [] => []
